@@ -1,6 +1,6 @@
 """Contracts of the TestNode getters shared by several properties (C03, C04, C05, C08, C10)."""
 import z3
-from pyvc.kinds import V, STR, INT, BOOL, Ref, Seq, SetK, Map, NULL, RefSort, const
+from pyvc.kinds import safe_forall, V, STR, INT, BOOL, Ref, Seq, SetK, Map, NULL, RefSort, const
 from pyvc.contract import Contract, contract_handler
 
 NODE = "avocado_i2n/cartgraph/node.py"
@@ -142,11 +142,11 @@ def _prefix_reslen_axioms():
     i = z3.Const("ax_i", z3.IntSort())
     LN, LR = Seq(Ref("TestNode")), Seq(Ref("Result"))
     return [
-        z3.ForAll([R, B], prefix_reslen(R, B, 0) == 0, patterns=[prefix_reslen(R, B, 0)]),
-        z3.ForAll([R, B, i], z3.Implies(i >= 0, prefix_reslen(R, B, i + 1) ==
+        safe_forall([R, B], prefix_reslen(R, B, 0) == 0, patterns=[prefix_reslen(R, B, 0)]),
+        safe_forall([R, B, i], z3.Implies(i >= 0, prefix_reslen(R, B, i + 1) ==
                                         prefix_reslen(R, B, i) + LR.len(z3.Select(R, LN.at(B, i)))),
                   patterns=[prefix_reslen(R, B, i + 1)]),
-        z3.ForAll([R, B, i], z3.Implies(i >= 0, prefix_reslen(R, B, i) >= 0), patterns=[prefix_reslen(R, B, i)]),
+        safe_forall([R, B, i], z3.Implies(i >= 0, prefix_reslen(R, B, i) >= 0), patterns=[prefix_reslen(R, B, i)]),
     ]
 
 
@@ -207,11 +207,11 @@ def _prefix_filtlen_axioms():
     i = z3.Const("ax_i", z3.IntSort())
     LR = Seq(Ref("Result"))
     return [
-        z3.ForAll([N, L, f], prefix_filtlen(N, L, f, 0) == 0, patterns=[prefix_filtlen(N, L, f, 0)]),
-        z3.ForAll([N, L, f, i], z3.Implies(i >= 0, prefix_filtlen(N, L, f, i + 1) == prefix_filtlen(N, L, f, i) +
+        safe_forall([N, L, f], prefix_filtlen(N, L, f, 0) == 0, patterns=[prefix_filtlen(N, L, f, 0)]),
+        safe_forall([N, L, f, i], z3.Implies(i >= 0, prefix_filtlen(N, L, f, i + 1) == prefix_filtlen(N, L, f, i) +
                                            z3.If(z3.Contains(z3.Select(N, LR.at(L, i)), f), 1, 0)),
                   patterns=[prefix_filtlen(N, L, f, i + 1)]),
-        z3.ForAll([N, L, f, i], z3.Implies(i >= 0, z3.And(prefix_filtlen(N, L, f, i) >= 0, prefix_filtlen(N, L, f, i) <= i)),
+        safe_forall([N, L, f, i], z3.Implies(i >= 0, z3.And(prefix_filtlen(N, L, f, i) >= 0, prefix_filtlen(N, L, f, i) <= i)),
                   patterns=[prefix_filtlen(N, L, f, i)]),
     ]
 
